@@ -92,12 +92,14 @@ Proof. exact PoolSem.slots_match_size. Qed.
 Print Assumptions C10_slots_match_pool_size.
 
 (* conservation, for the closed system in which nothing goes wrong (Model/PoolSys.v: client,
-   task queue, pipe, workers, result pipe; see Props/C01.v): in every reachable state the free
-   slots plus the jobs in flight make up the bound, a job is in flight iff it is unresolved,
-   and when nothing can move any more every slot is free again.  (In the open model, with
-   worker deaths, conservation is refuted: known finding C10:more-slot-holders-than-slots.) *)
+   task queue, pipe, workers, result pipe; see Props/C01.v): in every reachable state before
+   close() the free slots plus the jobs in flight make up the bound, a job is in flight iff it
+   is unresolved, and when nothing but close() can move any more every slot is free again.
+   (In the open model, with worker deaths, conservation is refuted: known finding
+   C10:more-slot-holders-than-slots.) *)
 Theorem C10_slots_account_for_jobs_in_flight : forall c n y,
-    1 <= Pool.c_n c -> PoolSysProofs.sreach c n y -> Pool.putlocks (PoolSys.par y) = true ->
+    1 <= Pool.c_n c -> PoolSysProofs.sreach c n y ->
+    Pool.putlocks (PoolSys.par y) = true -> Pool.pstate (PoolSys.par y) = 0 ->
     LaxSem.value (Pool.sem (PoolSys.par y)) + Z.of_nat (length (PoolSys.tokens y))
     = LaxSem.bound (Pool.sem (PoolSys.par y))
     /\ 0 <= LaxSem.value (Pool.sem (PoolSys.par y)).
@@ -111,9 +113,10 @@ Theorem C10_in_flight_iff_unresolved : forall c n y j,
 Proof. exact PoolSysProofs.in_flight_iff_unresolved. Qed.
 Print Assumptions C10_in_flight_iff_unresolved.
 
-Theorem C10_all_slots_back_at_the_end : forall c n sched y,
-    1 <= Pool.c_n c -> PoolSys.srun (PoolSys.sinit c n) sched = Some y ->
-    (forall a, PoolSys.sys_step y a = None) -> Pool.putlocks (PoolSys.par y) = true ->
+Theorem C10_all_slots_back_at_the_end : forall c n y,
+    1 <= Pool.c_n c -> PoolSysProofs.sreach c n y ->
+    (forall a, a <> PoolSys.SClose -> PoolSys.sys_step y a = None) ->
+    Pool.pstate (PoolSys.par y) = 0 -> Pool.putlocks (PoolSys.par y) = true ->
     LaxSem.value (Pool.sem (PoolSys.par y)) = LaxSem.bound (Pool.sem (PoolSys.par y)).
 Proof. exact PoolSysProofs.all_slots_back. Qed.
 Print Assumptions C10_all_slots_back_at_the_end.
